@@ -25,7 +25,7 @@ def gen_case(seed: int, tier: str, index: int, profiles, net_cfg, draw_range) ->
     snaps = snapshot_files()
     cfg: Dict[str, Any] = {"profile": profile, "net": net_cfg(profile, rng), "sched": {"cost_p": 0.2, "cost_max": 0.002},
                            "tables": {"idle": {"PROTOCOL_TIMEOUT_IN_SECONDS": T, "PROTOCOL_RETRY_COUNT": R}},
-                           "snapshot": snaps[rng.randrange(len(snaps))].split("/")[-1], "T": T, "R": R,
+                           "snapshot": snaps[rng.randrange(len(snaps))].split("/")[-1], "T": T, "R": R, "used_numbers": rng.choice([0, 0, 100, 126, 127, 160, 188]),
                            "reliability": rng.choice([0.9, 0.97]) if profile == "unreliable" else 1.0}
     n = rng.randint(3, 8) if tier == "quick" else rng.randint(5, 16)
     plan = []
@@ -67,6 +67,8 @@ def scenario(world: WorldT) -> None:
     sim._reliability = cfg.get("reliability", 1.0)
     R, T = cfg["R"], cfg["T"]
     shapes = []
+    for _ in range(int(cfg.get("used_numbers", 0))):          # the socket has been in use: its request counter stands anywhere in 1..191
+        sock.get_and_increment_sequence_counter(False)
     for ti, op in enumerate(world.case["plan"]):
         start, length = op["start"], op["length"]
         old = struct.status_block
@@ -75,7 +77,11 @@ def scenario(world: WorldT) -> None:
         mark = len(world.net.history)
         faults_before = sum(res.faults.values())
         del installs[:]
-        request = GeckoStatusBlockProtocolHandler.request(sock.get_and_increment_sequence_counter(False), start, length, parms=sendparms)
+        try:
+            request = GeckoStatusBlockProtocolHandler.request(sock.get_and_increment_sequence_counter(False), start, length, parms=sendparms)
+        except Exception as e:
+            world.violate(PROP, "transfer-raised", f"[blocking] transfer#{ti} start={start} length={length}: building the request raised "
+                          f"{type(e).__name__}: {e}", sig="transfer-raised:" + type(e).__name__)
         t0 = world.now()
         struct.retry_request(sock, request, sendparms)
         # the outcome is visible as "the handler left the engine's list"
